@@ -39,7 +39,12 @@ POOLS = {
     'datetime': ['2020-01-01 00:00:00', '1999-12-31 23:59:59', '2021-06-15 12:30:00'],
 }
 TTYPE = {'integer': 'int', 'real': 'real', 'text': 'string', 'varchar': 'string', 'boolean': 'bool',
-         'datetime': 'date'}
+         'datetime': 'date',
+         # declared with a length / precision, as PRAGMA table_info reports them
+         'varchar(20)': 'string', 'VARCHAR(255)': 'string', 'char(3)': 'string', 'nvarchar(40)': 'string',
+         'numeric(10,2)': 'real', 'int(11)': 'int'}
+DECLARED = {'varchar(20)': [['a', 'bb', "it's"], [None, 'abc'], []], 'VARCHAR(255)': [['x', 'yy']], 'char(3)': [['abc', 'xyz', None]],
+            'nvarchar(40)': [['é£', 'a']], 'numeric(10,2)': [[1.5, -2.25, None], [0.0]], 'int(11)': [[3, 1, 2], [None]]}
 
 
 def make_table(path, sqltype, values, colname='c'):
@@ -242,7 +247,8 @@ def check_table(b, top, sqltype, values, inc_rex):
 def run(props, tier, seed):
     rnd = random.Random(seed)
     max_rows = 2 if tier == 'quick' else 3
-    b = Bounded('SQLite tables with one data column of each type (integer, real, text, varchar, boolean, datetime): every '
+    b = Bounded('SQLite tables with one data column of each type (integer, real, text, varchar, boolean, datetime, and types '
+                'declared with a length or precision such as varchar(20), numeric(10,2)): every '
                 'sequence of <= %d cells from the type pool (+NULL), seeded longer tables (up to 25 distinct categories), '
                 'x rex off/on; each discovered, verified against itself, and re-verified after every single-row '
                 'perturbation beyond a discovered constraint' % max_rows,
@@ -270,6 +276,10 @@ def run(props, tier, seed):
                 for inc_rex in ((False, True) if TTYPE[sqltype] == 'string' else (False,)):
                     check_table(b, top, sqltype, values, inc_rex)
         check_column_names(b, top)
+        for sqltype, lists in DECLARED.items():
+            for values in lists:
+                for inc_rex in ((False, True) if TTYPE[sqltype] == 'string' else (False,)):
+                    check_table(b, top, sqltype, values, inc_rex)
     finally:
         shutil.rmtree(top, ignore_errors=True)
     return b
